@@ -8,7 +8,9 @@ macro_rules! ord_token { ($($n:ident),* $(,)?) => { verus!{ $(
     impl PartialOrd for $n { #[verifier::external_body] fn partial_cmp(&self, o: &$n) -> Option<core::cmp::Ordering> { unimplemented!() } }
     impl Ord for $n { #[verifier::external_body] fn cmp(&self, o: &$n) -> core::cmp::Ordering { unimplemented!() } }
 )* } } }
-ord_token!(PlutusData, NativeScript, PlutusScript);
+ord_token!(PlutusData, NativeScript, PlutusScript, Redeemer);
+opaque_types!(RequiredSigners, PlutusScriptRef, TransactionInput);
+pub enum CborContainerType { Array, Map }
 /// per-language set tags of a PlutusScripts collection (a HashMap the de-duplication only clones)
 #[verifier::external_body] pub struct LangSetTypes { _p: core::marker::PhantomData<u8> }
 clone_eq!(LangSetTypes);
@@ -24,7 +26,7 @@ pub proof fn lemma_dedup_step<T>(s: Seq<T>, i: int)
 { assert(s.take(i + 1).drop_last() =~= s.take(i)); }
 pub open spec fn set_ok() -> bool {
     vstd::laws_cmp::obeys_cmp_spec::<&PlutusData>() && vstd::laws_cmp::obeys_cmp_spec::<&NativeScript>() && vstd::laws_cmp::obeys_cmp_spec::<NativeScript>()
-      && vstd::laws_cmp::obeys_cmp_spec::<PlutusScript>()
+      && vstd::laws_cmp::obeys_cmp_spec::<PlutusScript>() && vstd::laws_cmp::obeys_cmp_spec::<Redeemer>()
 }
 pub proof fn lemma_push_contains<T>(p: Seq<T>, e: T)
     ensures forall|y: T| #[trigger] p.push(e).contains(y) <==> p.contains(y) || y == e
@@ -34,3 +36,19 @@ pub proof fn lemma_push_contains<T>(p: Seq<T>, e: T)
     assert forall|y: T| p.contains(y) || y == e implies p.push(e).contains(y) by {
         if p.contains(y) { let i = choose|i: int| 0 <= i < p.len() && p[i] == y; assert(p.push(e)[i] == y); } else { assert(p.push(e)[p.len() as int] == y); } }
 }
+pub proof fn lemma_dedup_push<T>(a: Seq<T>, e: T)
+    ensures dedup_seq(a.push(e)) == (if dedup_seq(a).contains(e) { dedup_seq(a) } else { dedup_seq(a).push(e) })
+{ assert(a.push(e).drop_last() =~= a); }
+pub proof fn lemma_dedup_empty<T>(s: Seq<T>) ensures (dedup_seq(s).len() == 0) == (s.len() == 0) decreases s.len()
+{ if s.len() > 0 { lemma_dedup_empty(s.drop_last()); } }
+// what PlutusWitnesses::collect gathers from a witness sequence, before de-duplication
+pub open spec fn w_scripts(w: PlutusWitness) -> Seq<PlutusScript> { match w.script { PlutusScriptSourceEnum::Script(x, _) => seq![x], _ => Seq::empty() } }
+pub open spec fn w_datums(w: PlutusWitness) -> Seq<PlutusData> { match w.datum { Some(DatumSourceEnum::Datum(x)) => seq![x], _ => Seq::empty() } }
+pub open spec fn att_scripts(s: Seq<PlutusWitness>) -> Seq<PlutusScript> decreases s.len() { if s.len() == 0 { Seq::empty() } else { att_scripts(s.drop_last()) + w_scripts(s.last()) } }
+pub open spec fn att_datums(s: Seq<PlutusWitness>) -> Seq<PlutusData> decreases s.len() { if s.len() == 0 { Seq::empty() } else { att_datums(s.drop_last()) + w_datums(s.last()) } }
+pub open spec fn att_redeemers(s: Seq<PlutusWitness>) -> Seq<Redeemer> decreases s.len() { if s.len() == 0 { Seq::empty() } else { att_redeemers(s.drop_last()).push(s.last().redeemer) } }
+pub proof fn lemma_att_step(s: Seq<PlutusWitness>, i: int)
+    requires 0 <= i < s.len()
+    ensures att_scripts(s.take(i + 1)) == att_scripts(s.take(i)) + w_scripts(s[i]), att_datums(s.take(i + 1)) == att_datums(s.take(i)) + w_datums(s[i]),
+            att_redeemers(s.take(i + 1)) == att_redeemers(s.take(i)).push(s[i].redeemer)
+{ assert(s.take(i + 1).drop_last() =~= s.take(i)); }
